@@ -327,17 +327,216 @@ def malformed_lines(rng, tier: str):
     return out
 
 
+# ---- C02 at the point where an application meets the decoder: Gateway.listen ---------------------------------
+
+LISTEN_PROBE = "0;255;3;0;9;next line"     # what the transport would deliver after the line under test
+LISTEN_CHUNK = 40
+# registries in which the base lines' nodes and children exist, so that well-formed set / req / presentation lines are
+# yielded (their decoded fields observable) instead of ending in a missing-node error; without node 254 an id request
+# can still be granted (it is refused once the highest id is in use)
+def _registry(nodes):
+    return [p for n in nodes for p in [("node", n, 17, "2.0", "", "", 0, 0, False, False)]
+            + [("child", n, c, c, 6, "c") for c in (0, 1, 2, 3, 5)]]
+
+
+LISTEN_PRELOADS = [[], _registry((0, 1, 7)), _registry((0, 1, 7, 254))]
+
+
+def sets_version(line: str) -> bool:
+    """Well-formed lines whose handling may switch the gateway's active protocol (version report, gateway presentation)."""
+    f = ref_accepts(line)
+    return f is not None and f[1] == 255 and ((f[2] == 3 and f[4] == 2) or (f[2] == 0 and f[0] == 0))
+
+
+def listen_histories(triples):
+    """(version, line, label) -> gateway histories: per version, up to LISTEN_CHUNK received lines on one Gateway object,
+    in turn with an empty and two populated registries.  A line that may switch the active protocol ends its history,
+    so every line is decoded under the version the history was started with."""
+    from .. import gw
+    per = {}
+    for version, line, label in triples:
+        per.setdefault(version, []).append((line, label))
+    hists = []
+    for version, items in per.items():
+        cur = None
+        for line, label in items:
+            if cur is None:
+                k = len(hists)
+                cur = (gw.Hist(version, True, list(LISTEN_PRELOADS[k % 3])), [])
+                hists.append(cur)
+            cur[0].ops.append(("recv", line, (), gw.DEFAULT_TIME))
+            cur[1].append(label)
+            if len(cur[1]) >= LISTEN_CHUNK or sets_version(line):
+                cur = None
+    return hists
+
+
+def _fields_of_message(m):
+    vals = (m.node_id, m.child_id, m.command, m.ack, m.message_type, m.payload)
+    if not all(type(x) is int for x in vals[:5]) or type(vals[5]) is not str:
+        return ("badtypes", repr(vals))
+    return ("ok", vals)
+
+
+async def _listen_trace(h, fresh_listener: bool):
+    """One history of received lines on the real Gateway, read through `Gateway.listen` (one generator for as long as it
+    keeps yielding, or a fresh one per line).  Per step: the codec-view observation
+      ("ok", fields)            a message was yielded, or a library error carries the decoded Message object
+      ("invalid",)              InvalidMessageError that does not carry a decoded Message (it names the received text)
+      ("accepted", class)       another library error (missing node / child ...): decoded, fields not observable
+      ("foreign", class)        anything else
+    plus how it was observed, the active protocol before the step, whether the registry / buffers / version changed or
+    something was written, and whether listen went on to read the following line."""
+    from .. import gw
+    from aiomysensors import exceptions as exc
+    g, tr = gw.build_gateway(h)
+    listener = None
+    trace = []
+    state = gw.render_state(g)
+    for op in h.ops:
+        line = op[1]
+        tr.attempts = []
+        tr.faults = []
+        tr.lines = [line, LISTEN_PROBE]
+        gw.TIME_STUB.now = tuple(op[3])
+        proto = g.protocol.VERSION
+        before = state
+        if listener is None or fresh_listener:
+            if listener is not None:
+                await listener.aclose()
+            listener = g.listen()
+        try:
+            m = await anext(listener)
+            obs, how = _fields_of_message(m), "yield"
+        except Exception as e:  # noqa: BLE001
+            listener = None      # an async generator that raised is finished
+            how = type(e).__name__
+            carried = getattr(e, "message", None)
+            if isinstance(e, exc.AIOMySensorsError) and isinstance(carried, Message):
+                obs = _fields_of_message(carried)
+                how += "(decoded message)"
+            elif isinstance(e, exc.InvalidMessageError):
+                obs = ("invalid",)
+            elif isinstance(e, exc.AIOMySensorsError):
+                obs = ("accepted", type(e).__name__)
+            else:
+                obs = ("foreign", type(e).__name__)
+        state = gw.render_state(g)
+        trace.append({"obs": obs, "how": how, "proto": proto, "touched": state != before or bool(tr.attempts),
+                      "overread": len(tr.lines) < 1})
+    if listener is not None:
+        await listener.aclose()
+    return trace
+
+
+def listen_verdict(line: str, t) -> str | None:
+    """C02 restated at Gateway.listen: what is wrong with one observed step, or None."""
+    want = ref_accepts(line)
+    obs, how = t["obs"], t["how"]
+    if want is None:
+        if how == "yield":
+            if t["overread"]:
+                return "Gateway.listen did not raise on a line the property rejects: it went on to the following line"
+            return "Gateway.listen accepted (yielded a message for) a line the property rejects"
+        if obs[0] == "foreign":
+            return "Gateway.listen failed on a malformed line with something other than InvalidMessageError"
+        if obs[0] == "accepted":
+            return ("a line the property rejects was not rejected as an invalid message: Gateway.listen raised another "
+                    "library error (the line was decoded and handled)")
+        if obs[0] != "invalid":
+            return ("a line the property rejects was decoded by Gateway.listen: the library error it raised carries the "
+                    "decoded Message, not the received text")
+        if t["touched"]:
+            return "a line rejected as invalid nevertheless changed the gateway's state or caused a write"
+        return None
+    if obs[0] == "invalid":
+        return "Gateway.listen rejected a well-formed line as an invalid message"
+    if obs[0] in ("ok", "badtypes") and obs != ("ok", want):
+        return "Gateway.listen decoded a well-formed line to other field values than it spells"
+    return None   # yielded / handled with exactly the spelled values; handler errors and foreign exceptions after a
+    #               successful decode are not C02's (C03, C04): they are left to the model comparison
+
+
+def listen_end_to_end(corr: Corr, ctx, triples, model_of):
+    """The stream of run_c02 once more, this time through a real Gateway per version: transport line -> Gateway.listen
+    -> yielded message / exception.  Oracle = listen_verdict; model = Codec.decode (`dec`) at the protocol active at that
+    step, compared on the codec view (accept / reject + decoded fields)."""
+    from .. import gw
+    hists = listen_histories(triples)
+
+    async def run_all():
+        return [await _listen_trace(h, fresh_listener=(k // 3) % 2 == 1) for k, (h, _) in enumerate(hists)]
+
+    traces = asyncio.run(run_all())
+
+    def alone(h, i, what):
+        """The shortest history on which the same verdict shows: the line alone (empty, then the same registry), else the prefix."""
+        op = h.ops[i]
+        for pre in ([], h.preload):
+            s = gw.Hist(h.version, h.metric, list(pre), [op])
+            for fresh in (False, True):
+                t = asyncio.run(_listen_trace(s, fresh))[0]
+                if listen_verdict(op[1], t) == what:
+                    return s, t
+        return gw.Hist(h.version, h.metric, h.preload, h.ops[: i + 1]), None
+
+    extra, pending = [], []
+    for (h, labels), trace in zip(hists, traces):
+        for i, (op, label, t) in enumerate(zip(h.ops, labels, trace)):
+            line = op[1]
+            want = ref_accepts(line)
+            case = {"version": h.version, "line": line, "class": label, "via": "Gateway.listen",
+                    "observed": t["how"], "got": repr(t["obs"]), "want": repr(want) if want is not None else "InvalidMessageError"}
+            what = listen_verdict(line, t)
+            if what is not None and len(corr.violations) < 50:
+                s, t1 = alone(h, i, what)
+                if t1 is not None:
+                    case.update({"observed": t1["how"], "got": repr(t1["obs"])})
+                corr.violate(what, {**case, "history": s.to_json()})
+            canonical = want is not None and ";".join(str(x) for x in want[:5]) == ";".join(line.rstrip().split(";")[:5])
+            corr.case(("listen", h.version, line, bool(h.preload)), t["obs"][0] not in ("ok", "accepted") or not canonical,
+                      {k: case[k] for k in ("version", "line", "class", "via", "observed")} if len(line) < 80 else None)
+            corr.count(f"listen:class:{label.split(':')[0]}")
+            corr.count(f"listen:outcome:{t['obs'][0]}" + (":yielded" if t["how"] == "yield" else ""))
+            corr.count(f"listen:active-protocol:{t['proto']}")
+            key = (t["proto"], line)
+            if key not in model_of:
+                model_of[key] = None
+                extra.append(key)
+            pending.append((key, case, t, h, i))
+    if not ctx.model_ok:
+        return
+    for key, o in zip(extra, lib.run_model([model_dec(v, l) for v, l in extra])):
+        model_of[key] = parse_model_dec(o)
+    for key, case, t, h, i in pending:
+        md, obs = model_of[key], t["obs"]
+        same = md[0] == "ok" if obs[0] == "accepted" else md == obs
+        if not same:
+            corr.disagree("decode through Gateway.listen",
+                          {**case, "model": repr(md), "history": gw.Hist(h.version, h.metric, h.preload, h.ops[: i + 1]).to_json()})
+
+
 def run_c02(ctx) -> Corr:
     corr = Corr("C02", "malformed stream: every single-field text-class mutation (40 classes incl. Unicode digits, "
                 "underscores, signs, padding, digit-limit boundary) of 15 base lines, 0-8 fields, every Python "
                 "whitespace code point at the end, random multi-field mutations (thorough: all pairs), x 5 versions; "
                 "compared: accept/reject + decoded values + exception class, implementation vs Lean decode vs the "
-                "property's literal predicate. non-trivial = distinct (line, version) whose outcome is reject, or "
-                "accept with a non-canonical numeral")
+                "property's literal predicate; every (line, version) twice: MessageSchema.load, and end to end as a "
+                "transport line read through Gateway.listen on a real Gateway (histories of <= 40 lines, empty and "
+                "populated registries, one listen() generator or a fresh one per line). non-trivial = distinct (line, "
+                "version) whose outcome is reject, or accept with a non-canonical numeral")
+    corr.notes.append("Gateway.listen part: judged by the property's predicate (reject = InvalidMessageError that does not carry a "
+                      "decoded Message, nothing yielded, no state change, no write, the following line not read; accept = the "
+                      "yielded message, or the Message carried by a handler's library error, has exactly the spelled values) and "
+                      "compared with the model's Codec.decode (driver op `dec`) at the protocol active at that step. The gateway "
+                      "model's `grecv` is not used here: what a handler does with an accepted line is outside C02's view "
+                      "(C03-C08 compare it); a handler error without a Message (missing node/child) counts as accepted with "
+                      "unobserved fields.")
     rng = lib.rng_for(ctx.seed, "c02")
     lines = [(c["line"], "corpus") for c in lib.load_corpus("C02")] + malformed_lines(rng, ctx.tier)
     schemas = {v: schema_for(v) for v in lib.VERSIONS}
     ops, rec = [], []
+    triples = []
     for i, (line, label) in enumerate(lines):
         if lib.has_surrogate(line):
             continue
@@ -354,14 +553,18 @@ def run_c02(ctx) -> Corr:
                 corr.violate("decoder rejected or mis-decoded a well-formed line", {**case, "got": repr(got), "want": repr(want)})
             ops.append(model_dec(version, line))
             rec.append((case, got))
+            triples.append((version, line, label))
             canonical = want is not None and ";".join(str(x) for x in want[:5]) == ";".join(line.rstrip().split(";")[:5])
             corr.case((version, line), got[0] != "ok" or not canonical, case if len(line) < 80 else None)
             corr.count(f"class:{label.split(':')[0]}")
             corr.count(f"outcome:{got[0]}")
+    model_of = {}
     if ctx.model_ok:
         outs = lib.run_model(ops)
         for (case, got), o in zip(rec, outs):
             md = parse_model_dec(o)
+            model_of[(case["version"], case["line"])] = md
             if md != got:
                 corr.disagree("decode", {**case, "impl": repr(got), "model": repr(md)})
+    listen_end_to_end(corr, ctx, triples, model_of)
     return corr
